@@ -166,8 +166,7 @@ def check_reaction(env: Any, s: Any, a: Any, s2: Any, ts: Any, masked_in: bool) 
                     f"step_type={int(ts.step_type)} reward={float(ts.reward)}"]
         return []
     if last:
-        other = int(s2.step_count) >= int(env.time_limit) or not np.asarray(s2.action_mask).any() \
-            or not legal(env, s2).any()
+        other = int(s2.step_count) >= int(env.time_limit) or not legal(env, s2).any()
         if not other:
             return [f"masked-in-action-punished: action {np.asarray(a).tolist()} is masked-in, the time limit is "
                     "not reached and the next piece can be placed, yet the episode ended"]
